@@ -93,7 +93,11 @@ func genPackTree(rng *Rng, risky bool) (*TNode, bool, string) {
 					t = rng.Pick([]string{"a", "b.txt", "sub", "c/a", "nothing", "./a"})
 				case j < 7:
 					t = up + rng.Pick([]string{"a", "b.txt", "sub"})
-					if rng.Chance(25) {
+					if rng.Chance(20) {
+						// leaves the source directory and comes back in through its name: inside on disk,
+						// outside at its position in an archive whose root has another name
+						t = up + "../src/" + rng.Pick([]string{"a", "b.txt", "sub", "nothing"})
+					} else if rng.Chance(25) {
 						// exactly the parent of the source directory, or the source directory itself
 						t = strings.TrimSuffix(up+rng.Pick([]string{"..", "../src/..", ".", ""}), "/")
 						if t == "" {
@@ -324,6 +328,7 @@ func runPackCase(c *PackCase, work string, rng *Rng, ignoreText string, hasOut b
 		byNameTop[p.rel] = true
 	}
 	escapingLinkInDeref := false
+	reenters := false // some stored link leaves the source directory and re-enters it by name
 	ref := refParse(ignoreText)
 	useIgnore := c.Ignore || c.Legacy
 	// ---- C03 at Pack level: a file ships iff its own path is not excluded ----
@@ -390,11 +395,17 @@ func runPackCase(c *PackCase, work string, rng *Rng, ignoreText string, hasOut b
 					// the archive root has no name of its own: a target that climbs above it and
 					// comes back through the source directory's name is outside wherever it is unpacked
 					if neutral := path.Clean(path.Join("/archive-root", path.Dir(name), e.Link)); !allowed(abs) && neutral != "/archive-root" && !strings.HasPrefix(neutral, "/archive-root/") {
+						if inRoot(abs) {
+							reenters = true
+						}
 						abs = "/outside-at-archive-position" + neutral
 					}
 				}
 				if !inRoot(abs) && !allowed(abs) {
 					sig := []string{}
+					if reenters {
+						sig = append(sig, "link_reenters_source_directory_by_name")
+					}
 					if c.Deref && strings.Contains(name, "/") {
 						sig = append(sig, "link_inside_dereferenced_directory")
 						escapingLinkInDeref = true
@@ -451,6 +462,10 @@ func runPackCase(c *PackCase, work string, rng *Rng, ignoreText string, hasOut b
 			if c.Deref && escapingLinkInDeref {
 				// the rejection is explained by a stored link already reported above (KF-C05-1)
 				sig = append(sig, "link_inside_dereferenced_directory")
+			}
+			if reenters {
+				// likewise (KF-C05-3)
+				sig = append(sig, "link_reenters_source_directory_by_name")
 			}
 			vs = append(vs, viol("C05", "Unpack rejects the slug Pack produced from a tree with relative links: "+up.Err, sig...))
 			if !c.Deref {
